@@ -11,6 +11,13 @@
     - analysis/dataflow/function_summary_graph.go   NewSummaryGraph, SyncGlobals, Print, atomic node ids
     - analysis/taint/taint.go           Analyze (the driver sequencing the above)
 
+    The matrix has two variants selected by [fixed]:
+    - [fixed = true]  the code as it is since /repo commit d79ddc0 "fix: write the summaries report synchronously in
+                      BuildGraph": the report-summaries writer is a piece of the main goroutine between STEP 2 and STEP 3
+                      (happens-before edge writer -> step 3).  THIS is the variant tied to the code by the check.
+    - [fixed = false] the code before that commit: the writer is a detached goroutine started by a go statement and
+                      never joined (kept because the check must recognise the defect if it comes back).
+
     A *step* is a maximal piece of one goroutine between two synchronisation points.  Steps are numbered in a
     topological order of happens-before (every edge goes from a smaller to a larger number - checked by [wf_hb]).
     Two summary workers stand for the NumCPU-1 workers (any racing pair of workers is a pair of two of them). *)
@@ -87,7 +94,8 @@ Definition s_worker1 := 5.    (* goroutine: MapParallel worker = runSingleFuncti
 Definition s_worker2 := 6.    (* goroutine: another worker *)
 Definition s_collect := 7.    (* main: range out / collectResults / InsertSummaries *)
 Definition s_build12 := 8.    (* main: BuildGraph: openSummaries, STEP 1, STEP 2 *)
-Definition s_writer := 9.     (* goroutine: the report-summaries writer (inter_procedural.go:168) *)
+Definition s_writer := 9.     (* the report-summaries writer (inter_procedural.go:165-178): main goroutine when [fixed],
+                                 a detached goroutine otherwise *)
 Definition s_build3 := 10.    (* main: BuildGraph STEP 3 (linking) *)
 Definition s_buildret := 11.  (* main: BuildGraph returns: deferred summariesFile.Close() *)
 Definition s_visitor := 12.   (* main: openCoverage, RunVisitorOnEntryPoints (incl. on-demand summaries, report files) *)
@@ -151,7 +159,7 @@ Definition worker (s g : nat) : list access :=
 
 Section Options.
   Variables report_summaries report_coverage report_paths on_demand : bool.
-  Variable fixed : bool.     (* the proposed fix: the writer is joined before STEP 3 *)
+  Variable fixed : bool.     (* true: the writer runs synchronously before STEP 3 (the code since d79ddc0) *)
 
   Definition when (b : bool) (l : list access) : list access := if b then l else [].
 
